@@ -125,12 +125,19 @@ CLAIMED = {
         technique="contract-based symbolic execution of the real code over bounded histories (bounded stand-in), obligations discharged by z3",
         design="3/C10",
     ),
+    "C14": dict(
+        category="proof",
+        text="PARTIAL CLAIM -- UNet family, shapes only. For each configuration of the (finite) grid max_stride x output_stride x stem_stride x filters_rate x convs_per_block x up_interpolate x middle_block x head type/strides (quick: a sample of 34; thorough: the full grid of 720) the real constructors (Model.__init__, get_head, get_backbone, UNet.from_config, Encoder, Decoder, SimpleConvBlock, SimpleUpsamplingBlock, Head.make_head, MaxPool2dWithSamePadding) are executed and the real Model.forward / UNet.forward / Encoder.forward / Decoder.forward / MaxPool2dWithSamePadding.forward are symbolically executed twice on the same model object with inputs B x C x (max_stride*h) x (max_stride*w), all of B, h, w symbolic and different between the calls. Proved: no layer rejects its input (the channel bookkeeping of encoder, decoder, skip connections and heads lines up), one output per head named after it, with (parts | 2 x edges) channels and spatial size input / head stride, on both calls.",
+        note="torch.nn layers enter through trusted SHAPE contracts (Conv2d, ConvTranspose2d, BatchNorm2d, activations, Upsample, Sequential, ModuleList, max_pool2d, pad: channel-count precondition and documented output size); layer VALUES are not modelled, so 'deterministic, independent of earlier calls and of batch-mates' is decided only as far as shapes go. Not decided: ConvNeXt and Swin-T backbones (torchvision internals). Known findings C14/convs-per-block-1, C14/no-middle-block and C14/head-at-max-stride (UNet with convs_per_block=1, with middle_block=False, or with a head at the max stride raises in forward for every input) are carved out of the grid (convs_per_block >= 2, middle_block=True, head strides < max_stride) and re-confirmed from committed witnesses on every run.",
+        technique="contract-based deductive verification: symbolic execution of the real Python source with library layers under shape contracts, VCs discharged by z3",
+        design="3/C14",
+    ),
 }
 
 NOT_APPLICABLE = {
     "C19": "no pre/postcondition on a function of this repository expresses it: training completion, artifacts and crash-point file contents live in Lightning/wandb/OmegaConf and the file system (DESIGN.md section 5)",
 }
-NOT_BUILT = ["C03", "C14"]
+NOT_BUILT = ["C03"]
 
 
 def main():
